@@ -7,7 +7,7 @@ import os
 from . import core
 from .core import cq_bool, cq_list, cq_nat
 
-THEOREMS = ["C26_count", "C26_count_total", "C26_count_refuted", "C26_zero_iff_success",
+THEOREMS = ["C26_count", "C26_count_total", "C26_count_head", "C26_narrow_parse_handler_escapes", "C26_zero_iff_success",
             "C26_argument_errors", "C26_independent", "C26_example"]
 KNOWN_TAG = "parse-file-undecodable-escapes"
 
